@@ -42,6 +42,12 @@ CLAIMED = {
   text="Every String() method of the package (21), stringify and formatField are analysed with an unconstrained receiver (all field values, all list lengths): each index, slice, pointer/interface dereference, division, type assertion (comma-ok only), wrapper nil check and loop must be proved safe/terminating at the instruction in every calling context (about 490 obligations; an undecided one fails). Reflection in formatField is decided by a guard table (each reflect call with a precondition is dominated by Kind/CanInterface/IsValid tests of the same Value). fmt.Sprintf is modelled as total. It decides 'never panics / terminates' for every receiver value, which no finite set of String() tests can; it does not look at the text produced.",
   note="Trusted: go/ssa, checker/num, totality of fmt/strings, the reflect guard table. Assumes non-nil receivers and non-nil list elements (decoded or well-formed values); 64-bit int.",
   design="DESIGN.md §2 C17"),
+ "C13": dict(
+  level="other",
+  technique="static analysis: numeric abstract interpretation of (*TransportLayerCC).Unmarshal with read-extent and wrap-around obligations, plus SSA def-use rules",
+  text="Decides structural clauses that are necessary for the property, for every input: (DECL) every read of the packet that follows the declared-length checks has its extent entailed <= 4*(Header.Length+1), not merely <= len(rawPacket); (NOWRAP) every addition updating a loop-carried 16-bit cursor/counter of the decoder is proven not to wrap; (WIDTH) a w-byte slice is handed to RecvDelta.Unmarshal only under delta.Type == w and the cursor advances by w; (SCALE) deltas are 250*zext8 / 250*sext16(BigEndian); (CLIP) placeholders and the processed counter both use N = localMin(count-processed, runLength) and localMin is min. Chunking invariance and the one-to-one correspondence of deltas with statuses are run-time relations and are not decided (stated in the evidence).",
+  note="Trusted: go/ssa, checker/num, field-name anchors. Chunk bit extraction is C16's.",
+  design="DESIGN.md §2 C13"),
 }
 
 NA = {
